@@ -34,8 +34,21 @@ def _spi_contract(h, d, dw, mode, DIV, LEN, LB, scope="legal", global_div=True):
     n_idle = eqc(h.n(st), enc["IDLE"])
     busy = z3.Not(idle)
     one, zero = K(1, 1), K(0, 1)
-    count = L(d, "count"); cdiv = L(d, "clk_divider"); md = L(d, "mosi_data"); ms = L(d, "mosi_sel"); misod = L(d, "miso_data")
-    have = all(x is not None and x in h.ts.var for x in (count, cdiv, md, ms, misod))
+    # internal registers: by constructor-local name, else by shape (a harmless rename must not lose the invariants); a group of hints whose register is not found is dropped
+    def ok_(x): return x is not None and x in h.ts.var
+    csr_regs = {c.storage for c in (getattr(d, n, None) for n in ("_control", "_mosi", "_cs", "_loopback", "_clk_divider")) if c is not None and hasattr(c, "storage")}
+    from vf.zutil import get_vars
+    def find(name, width, exclude, reads=None):
+        x = L(d, name)
+        if ok_(x): return x
+        cand = [s_ for s_ in h.ts.state if s_.nbits == width and s_ not in exclude and s_ not in csr_regs and s_ in getattr(h.ts, "orig_signals", h.ts.state)]
+        if reads is not None and len(cand) > 1:      # told apart by what the register is loaded from
+            cand = [s_ for s_ in cand if any(str(x_) == str(V(reads)) for x_ in get_vars(h.inline_comb(h.n(s_))))]
+        return cand[0] if len(cand) == 1 else None
+    cdiv = find("clk_divider", 16, {d.clk_divider}); count = L(d, "count"); ms = L(d, "mosi_sel")
+    misod = find("miso_data", dw, {d.miso, d.mosi, L(d, "mosi_data")}, pads.miso); md = find("mosi_data", dw, {d.miso, d.mosi, misod}, d.mosi)
+    haveA = ok_(count) and ok_(cdiv); haveB = haveA and ok_(md) and ok_(ms); haveC = haveA and ok_(misod); have = haveA
+    if not (haveA and haveB and haveC): h.use_auto = True
     rise = z3.And(z3.Not(b(V(pads.clk))), b(h.n(pads.clk)))                   # rising SCK edge at the pad = the capture instant (CPOL = 0, CPHA = 0)
     start_now = z3.And(idle, b(V(d.start)))
     # ---- ghosts (specification state)
@@ -67,12 +80,13 @@ def _spi_contract(h, d, dw, mode, DIV, LEN, LB, scope="legal", global_div=True):
         h.hint("count<len", z3.Implies(run, z3.ULT(c_, ln)))
         h.hint("st", ult(V(st), 4))
         h.hint("stop-phase", z3.Implies(stop, z3.ULT(cnt, half)))
-        h.hint("md", z3.Implies(busy, V(md) == gd))
-        h.hint("ms.start", z3.Implies(sstart, zx(V(ms), 9) == top))
-        MW = V(ms).size()
-        h.hint("ms.run", z3.Implies(run, z3.Extract(MW - 1, 0, zx(V(ms), 9) + zx(V(count), 9) + 1) == z3.Extract(MW - 1, 0, top)))
+        if haveB:
+            h.hint("md", z3.Implies(busy, V(md) == gd))
+            h.hint("ms.start", z3.Implies(sstart, zx(V(ms), 9) == top))
+            MW = V(ms).size()
+            h.hint("ms.run", z3.Implies(run, z3.Extract(MW - 1, 0, zx(V(ms), 9) + zx(V(count), 9) + 1) == z3.Extract(MW - 1, 0, top)))
         h.hint("mosi.run", z3.Implies(run, V(pads.mosi) == bit_at(gd, top - zx(V(count), 9))))
-        h.hint("rx", z3.Implies(z3.Or(run, stop), _low(V(misod) ^ z3.If(b(LB), gtx, grx), np_, WD) == K(0, WD)))
+        if haveC: h.hint("rx", z3.Implies(z3.Or(run, stop), _low(V(misod) ^ z3.If(b(LB), gtx, grx), np_, WD) == K(0, WD)))
         h.hint("tx", z3.Implies(z3.Or(run, stop), _low(gtx, np_, WD) == _low(z3.Extract(dw - 1, 0, sent(np_)), np_, WD)))
         h.hint("np<=len", z3.Implies(busy, z3.ULE(np_, ln9)))
         # ---- termination: a lexicographic ranking function (SCK periods still to go, cycles to the next divider wrap) decreases in every busy cycle
@@ -82,8 +96,23 @@ def _spi_contract(h, d, dw, mode, DIV, LEN, LB, scope="legal", global_div=True):
         q0 = zx(DIV - 1 - V(cdiv), W); q1 = zx(h.primed(DIV) - 1 - h.n(cdiv), W)          # modulo 2^16: in START the free-running divider may have to wrap first
         h.ensure("ens.rank", z3.Implies(busy, z3.Or(n_idle, z3.ULT(p1, p0), z3.And(p1 == p0, z3.ULT(q1, q0)))))
         xfer = z3.Or(run, stop, z3.And(sstart, cnt == div - 1))
+        # ---- SCK timing: period = divider cycles, high time = divider - divider//2; bounded start-up and wind-down (together: a transfer is busy for
+        #      less than (divider + divider//2) + (length - 1) * divider + divider <= (length + 2) * divider cycles - the clause the corner cases violate)
+        TW = 18
+        tr = h.ghost("since_rise", TW); h.ghost_next(tr, z3.If(rise, K(0, TW), z3.If(tr == K((1 << TW) - 1, TW), tr, tr + 1)))
+        age = h.ghost("age", TW); h.ghost_next(age, z3.If(idle, K(0, TW), z3.If(age == K((1 << TW) - 1, TW), age, age + 1)))          # busy cycles so far
+        d17 = zx(DIV, TW); c17 = zx(V(cdiv), TW); h17 = z3.LShR(d17, 1)
+        h.hint("tr.high", z3.Implies(z3.And(run, b(V(pads.clk))), tr + h17 == c17))
+        h.hint("tr.low", z3.Implies(z3.And(z3.Or(stop, z3.And(run, z3.Not(b(V(pads.clk))))), np_ != K(0, 9)), tr + h17 == c17 + d17))
+        h.ensure("ens.sck.period", z3.Implies(z3.And(rise, np_ != K(0, 9)), tr + 1 == d17))                       # consecutive rising edges are exactly `divider` cycles apart
+        h.ensure("ens.sck.high", z3.Implies(z3.And(b(V(pads.clk)), z3.Not(b(h.n(pads.clk)))), tr + 1 + h17 == d17))   # SCK is high for divider - divider//2 cycles
+        h.ensure("ens.sck.last-to-done", z3.Implies(z3.And(busy, np_ == ln9), z3.ULT(tr, d17)))                   # the transfer ends less than one period after the last rising edge
+        if global_div:
+            h.hint("age.start", z3.Implies(sstart, z3.ULE(age, c17)))
+            h.hint("age.run0", z3.Implies(z3.And(run, np_ == K(0, 9)), z3.ULE(age, d17 + c17)))
+            h.ensure("ens.sck.first-edge", z3.Implies(z3.And(busy, np_ == K(0, 9)), z3.ULT(age, d17 + h17)))      # the first rising edge comes less than 1.5 periods after the start
     elif scope == "legal":
-        h.use_auto = True; xfer = None
+        xfer = None
     if scope == "legal":
         # ---- pulse count, framing, MOSI (as in C19_periph.c_spi; re-stated here because the geometries / pads / front end differ)
         h.ensure("ens.pulse-only-in-run", z3.Implies(rise, run))
@@ -102,7 +131,7 @@ def _spi_contract(h, d, dw, mode, DIV, LEN, LB, scope="legal", global_div=True):
     h.ensure("ens.irq", irq == z3.And(busy, n_idle))                                                # one pulse, in the last cycle of the transfer
     h.ensure("ens.done", b(V(d.done)) == z3.And(idle, z3.Not(b(V(d.start)))))
     h.ensure("ens.start", z3.Implies(idle, eqc(h.n(st), enc["START"]) == b(V(d.start))))         # a transfer begins exactly on start while idle
-    return dict(idle=idle, sstart=sstart, run=run, stop=stop, busy=busy, np=np_, grx=grx, gtx=gtx, gd=gd, irq=irq, rise=rise, misod=misod if have else None, n_idle=n_idle)
+    return dict(idle=idle, sstart=sstart, run=run, stop=stop, busy=busy, np=np_, grx=grx, gtx=gtx, gd=gd, irq=irq, rise=rise, misod=misod if haveC else None, n_idle=n_idle)
 
 class _PadsNoCs:
     def __init__(self): self.clk = Signal(); self.mosi = Signal(); self.miso = Signal()
@@ -124,41 +153,8 @@ def c_spi_rx(dw=8, mode="raw", pads_kind="std"):
     h.assume(V(d.loopback) == plb, "loopback is configuration: constant (rigid symbolic bit)")
     x = _spi_contract(h, d, dw, mode, pdiv, plen, plb)
     h.cover("cover.capture", z3.And(x["irq"], plb == K(0, 1), plen == K(min(dw, 8), 8), pdiv == K(2, 16), _low(x["grx"], plen, _wd(dw)) == K(0xA5 & ((1 << min(dw, 8)) - 1), _wd(dw))), depth=2 * min(dw, 8) + 8)
-    h.cover("cover.loopback", z3.And(x["irq"], plb == K(1, 1), plen == K(3, 8), pdiv == K(2, 16), _low(x["gtx"], plen, _wd(dw)) == K(5, _wd(dw))), depth=16)
+    h.cover("cover.loopback", z3.And(x["irq"], plb == K(1, 1), plen == K(min(3, dw), 8), pdiv == K(2, 16), _low(x["gtx"], plen, _wd(dw)) == K(5 & ((1 << min(3, dw)) - 1), _wd(dw))), depth=16)
     h.bmc_depth = 2 * min(dw, 8) + 8
-    h.functions = ["litex.soc.cores.spi.spi_master.SPIMaster.__init__"]
-    return h
-
-def c_spi_bound(dw=8, split=True):
-    """bounded duration (the clause that the corner configurations below violate): with divider >= 2 and 1 <= length <= data_width a transfer
-    is busy for at most (length + 2) SCK periods = (length + 2) * divider system clock cycles"""
-    from litex.soc.cores.spi import SPIMaster
-    d = mk(SPIMaster, None, dw, 100e6, 25e6, with_csr=False, mode="raw"); pads = d.pads
-    h = HwCheck(f"SPIMaster.bound(dw={dw})", d, [d.start, d.length, d.mosi, d.cs, d.cs_mode, d.loopback, d.clk_divider, pads.miso])
-    V = h.v
-    pdiv = h.const("div", 16); plen = h.const("len", 8)
-    h.assume(z3.And(V(d.clk_divider) == pdiv, uge(pdiv, 2)), "the clock divider is configuration: constant and >= 2")
-    h.assume(z3.And(V(d.length) == plen, uge(plen, 1), ule(plen, dw)), "transfer length constant during a transfer, 1..data_width (modelled as a rigid constant)")
-    st, enc = d.fsm.state, d.fsm.encoding
-    idle, sstart, run, stop = [eqc(V(st), enc[n]) for n in ("IDLE", "START", "RUN", "STOP")]
-    busy = z3.Not(idle)
-    AW = 16 + (dw + 2).bit_length() + 1
-    age = h.ghost("age", AW); h.ghost_next(age, z3.If(idle, K(0, AW), z3.If(age == K((1 << AW) - 1, AW), age, age + 1)))      # busy cycles so far
-    cdiv = L(d, "clk_divider"); count = L(d, "count")
-    if cdiv is not None and count is not None and cdiv in h.ts.var and count in h.ts.var:
-        dv = zx(pdiv, AW); cn = zx(V(cdiv), AW)
-        h.hint("st", ult(V(st), 4))
-        h.hint("cnt<div", z3.ULT(V(cdiv), pdiv))
-        h.hint("count<len", z3.Implies(run, z3.ULT(zx(V(count), 8), plen)))
-        h.hint("stop-phase", z3.Implies(stop, z3.ULT(V(cdiv), z3.LShR(pdiv, 1))))
-        h.hint("age.start", z3.Implies(sstart, z3.ULE(age, cn)))
-        for k in range(dw):        # split by value: products with a constant only
-            h.hint(f"age.run{k}", z3.Implies(z3.And(run, eqc(V(count), k)), z3.ULE(age, dv * K(k + 1, AW) + cn)))
-            h.hint(f"age.stop{k + 1}", z3.Implies(z3.And(stop, plen == K(k + 1, 8)), z3.ULE(age, dv * K(k + 2, AW) + cn)))
-    else: h.use_auto = True
-    h.ensure("ens.finish-bound", z3.And(*[z3.Implies(z3.And(busy, plen == K(n, 8)), z3.ULE(age, K(n + 2, AW) * zx(pdiv, AW))) for n in range(1, dw + 1)]))
-    h.cover("cover.long", z3.And(stop, age == K(14, AW), pdiv == K(4, 16)), depth=18)
-    h.bmc_depth = 20
     h.functions = ["litex.soc.cores.spi.spi_master.SPIMaster.__init__"]
     return h
 
@@ -192,7 +188,12 @@ def c_spi_corner(dw=8, what="div<2"):
                      "never leaves STOP (divider 1) / START (divider 0, clk_fall never true either): done stays 0 for ever; tools/replay_spi_master_hang.py div1 / div0",
             "len=0": "SPIMaster started with length 0: RUN compares count == length - 1 = -1, never true: SCK toggles for ever, done stays 0; tools/replay_spi_master_hang.py len0"}.get(what,
                      "SPIMaster started with length > data_width: count (bits_for(data_width-1) bits) wraps before it reaches length - 1: SCK toggles for ever, done stays 0 (lengths that still fit the counter, e.g. 13..16 for data_width 12, finish with more than data_width pulses); tools/replay_spi_master_hang.py lenbig")
-    h.finding(name, clause, text)
+    if what == "div<2":      # two mechanisms, two findings
+        h.finding("finding.spi-master-hang-divider-1", z3.Implies(pdiv == K(1, 16), clause), "SPIMaster with clk_divider = 1 (a value the 16-bit clk_divider CSR accepts): the divider counter is reset in every cycle (clk_fall always true) and "
+                  "clk_rise = (counter == clk_divider[1:] - 1 = -1) is never true: no SCK pulse is produced and a started transfer never leaves STOP - done stays 0 for ever (also in the generated Verilog: 0 == 16'hFFFF); tools/replay_spi_master_hang.py div1")
+        h.finding("finding.spi-master-hang-divider-0", z3.Implies(pdiv == K(0, 16), clause), "SPIMaster with clk_divider = 0: clk_rise and clk_fall both compare the counter with -1, never true in the simulator: a started transfer never leaves START - done stays 0 "
+                  "for ever (generated Verilog: 16-bit compare with 16'hFFFF, both strobes coincide every 65536 cycles and the rise branch wins: the transfer ends after (length + 2) * 65536 cycles without a single SCK pulse); tools/replay_spi_master_hang.py div0")
+    else: h.finding(name, clause, text)
     h.cover("cover.started", z3.And(x["busy"], age == K(3, AW)), depth=8)
     h.bmc_depth = 4 * dw + 24
     h.functions = ["litex.soc.cores.spi.spi_master.SPIMaster.__init__"]
@@ -220,7 +221,8 @@ def c_spi_csr(dw=8, mode="raw"):
     AWB = len(bus.adr)
     def sel(n): return V(bus.adr) == K(idx[n], AWB)                     # bank at address 0 (paging 0x800 bytes = 512 words)
     def wr(n): return z3.And(b(V(bus.we)), sel(n))
-    ctrl = V(d._control.storage); DIV = V(d._clk_divider.storage); LEN = z3.Extract(15, 8, ctrl); LB = V(d._loopback.storage)
+    def reg32(r): return zx(V(r.storage), 32) if len(r.storage) <= 32 else z3.Extract(31, 0, V(r.storage))       # register as the 32-bit word software sees (layout from the CSR descriptions, whatever the storage width)
+    ctrl = reg32(d._control); DIV = z3.Extract(15, 0, reg32(d._clk_divider)); LEN = z3.Extract(15, 8, ctrl); LB = z3.Extract(0, 0, reg32(d._loopback))
     dat = V(bus.dat_w)
     st, enc = d.fsm.state, d.fsm.encoding
     idle = eqc(V(st), enc["IDLE"]); busy = z3.Not(idle)
@@ -235,21 +237,22 @@ def c_spi_csr(dw=8, mode="raw"):
     p_wr = {n: h.prev("wr_" + n, bv1(wr(n))) for n in ("control", "mosi", "cs", "loopback", "clk_divider")}
     p_dat = h.prev("dat_w", dat)
     for n, r in (("control", d._control), ("mosi", d._mosi), ("cs", d._cs), ("loopback", d._loopback), ("clk_divider", d._clk_divider)):
-        w = len(r.storage)
-        h.ensure(f"ens.csr.{n}.write", h.n(r.storage) == z3.If(wr(n), z3.Extract(w - 1, 0, dat), V(r.storage)))        # written by a bus write to its address, stable otherwise
+        w = min(len(r.storage), 32)
+        h.ensure(f"ens.csr.{n}.write", z3.Extract(w - 1, 0, h.n(r.storage)) == z3.If(wr(n), z3.Extract(w - 1, 0, dat), z3.Extract(w - 1, 0, V(r.storage))))        # written by a bus write to its address, stable otherwise
         h.hint(f"re.{n}", V(r.re) == p_wr[n])
-    h.hint("ctrl.written", z3.Implies(b(p_wr["control"]), ctrl == z3.Extract(15, 0, p_dat)))
+    cw = min(len(d._control.storage), 32)
+    h.hint("ctrl.written", z3.Implies(b(p_wr["control"]), z3.Extract(cw - 1, 0, ctrl) == z3.Extract(cw - 1, 0, p_dat)))
     h.ensure("ens.csr.start", b(V(d.start)) == z3.And(b(p_wr["control"]), z3.Extract(0, 0, p_dat) == one))             # a one-cycle start pulse in the cycle after a write with bit 0 set
     h.ensure("ens.csr.length", V(d.length) == LEN)
-    h.ensure("ens.csr.mosi", V(d.mosi) == V(d._mosi.storage))
+    h.ensure("ens.csr.mosi", zx(V(d.mosi), 32) == reg32(d._mosi))
     ncs = len(d.cs)
-    h.ensure("ens.csr.cs", z3.And(V(d.cs) == z3.Extract(ncs - 1, 0, V(d._cs.storage)), V(d.cs_mode) == z3.Extract(16, 16, V(d._cs.storage))))
+    h.ensure("ens.csr.cs", z3.And(V(d.cs) == z3.Extract(ncs - 1, 0, reg32(d._cs)), V(d.cs_mode) == z3.Extract(16, 16, reg32(d._cs))))      # sel in bits ncs-1:0, mode in bit 16
     h.ensure("ens.csr.loopback", V(d.loopback) == LB)
     h.ensure("ens.csr.clk_divider", V(d.clk_divider) == DIV)
     modebit = 1 if mode == "aligned" else 0
     h.ensure("ens.csr.status.read", z3.Implies(sel("status"), h.n(bus.dat_r) == zx(z3.Concat(K(modebit, 1), V(d.done)), 32)))       # done in bit 0, mode in bit 1, one cycle after the address
     h.ensure("ens.csr.miso.read", z3.Implies(sel("miso"), h.n(bus.dat_r) == zx(V(d.miso), 32)))
-    h.ensure("ens.csr.control.read", z3.Implies(sel("control"), h.n(bus.dat_r) == zx(ctrl, 32)))
+    h.ensure("ens.csr.control.read", z3.Implies(sel("control"), h.n(bus.dat_r) == ctrl))
     h.ensure("ens.csr.clk_divider.read", z3.Implies(sel("clk_divider"), h.n(bus.dat_r) == zx(DIV, 32)))
     # ---- configuration invariants (from the discipline)
     h.hint("div>=2", z3.UGE(DIV, K(2, 16)))
@@ -262,14 +265,250 @@ def c_spi_csr(dw=8, mode="raw"):
     h.functions = ["litex.soc.cores.spi.spi_master.SPIMaster.__init__", "litex.soc.cores.spi.spi_master.SPIMaster.add_csr", "litex.soc.cores.spi.spi_master.SPIMaster.add_clk_divider"]
     return h
 
+# ================================================================================================== I2CMaster / I2CMasterMachine / I2CClockGen
+def _i2c_ext(timing=False, ensures=True):
+    """extends the pad-level contract of C19_serial_ext (mode 'disciplined': commands only while idle, divider >= 1 programmed first) by the data path:
+    what is on SDA at every rising SCL edge of a write / read command, what the read shift register and the ack flag contain afterwards, the
+    command priority of the bit machine, the bus-side registers; timing=True adds the SCL phase lengths (needs a constant divider)"""
+    from contracts.C19_serial_ext import _c_i2c_common
+    h, d, m, S, _ = _c_i2c_common("disciplined")
+    h.name = "I2CMaster.timing" if timing else "I2CMaster.data"
+    V = h.v; bus = d.bus; one, zero = K(1, 1), K(0, 1)
+    st, enc = m.fsm.state, m.fsm.encoding
+    bits = L(m, "bits"); cnts = [s for s in h.ts.state if s.nbits == 20 and s is not m.cg.load]
+    if bits is None or bits not in h.ts.var or len(cnts) != 1: raise SidecarMismatch("I2CMasterMachine: bit counter / divider counter not found")
+    cnt = cnts[0]
+    B = V(bits); CNT = V(cnt); LOAD = V(m.cg.load)
+    p_cmd = h.ghosts["cmd_recent"][0]
+    wr = z3.And(b(V(bus.cyc)), b(V(bus.stb)), z3.Not(b(V(bus.ack))), b(V(bus.we)))
+    a0 = z3.Extract(0, 0, V(bus.adr))
+    wr_xfer = z3.And(wr, a0 == zero); wr_cfg = z3.And(wr, a0 == one)
+    dat = V(bus.dat_w); cmdbits = z3.Extract(12, 9, dat)                       # (stop, start, write, read) = bits 12..9
+    is_cmd = z3.And(wr_xfer, cmdbits != K(0, 4))
+    strobes = z3.Concat(V(m.start), V(m.stop), V(m.write), V(m.read))
+    ce = b(V(m.fsm.ce)); busy = z3.Not(S["IDLE"]); n_idle = eqc(h.n(st), enc["IDLE"])
+    scl = V(m.scl_o); scl_n = h.n(m.scl_o)                                      # the SCL line (assumption of the base contract: no stretching, single master)
+    sda = ~V(d.sda_t.oe)                                                        # SDA as driven by the master (open drain: released = 1)
+    sda_in = V(d.sda_t.i)                                                       # SDA as seen by the master (driven by the slave when released)
+    rise = z3.And(scl == zero, scl_n == one); fall = z3.And(scl == one, scl_n == zero)
+    # ---- ghosts: the last xfer write, the number of rising SCL edges since it, what a bus monitor shifts in
+    gbyte = h.ghost("wbyte", 8); gack = h.ghost("wack", 1); gcmd = h.ghost("wcmd", 4); nb = h.ghost("nrise", 4); grd = h.ghost("rbyte", 8)
+    lastrw = h.ghost("last_was_byte", 1); follows = h.ghost("read_follows_byte", 1)
+    h.ghost_next(gbyte, z3.If(wr_xfer, z3.Extract(7, 0, dat), gbyte)); h.ghost_next(gack, z3.If(wr_xfer, z3.Extract(8, 8, dat), gack))
+    h.ghost_next(gcmd, z3.If(is_cmd, cmdbits, gcmd))
+    h.ghost_next(nb, z3.If(is_cmd, K(0, 4), z3.If(z3.And(rise, nb != K(15, 4)), nb + 1, nb)))
+    def bit(x, i): return z3.Extract(i, i, x)
+    def kind(c):   # which command the documented priority executes: start > write > read > stop
+        return dict(w=z3.And(bit(c, 1) == one, bit(c, 2) == zero), r=z3.And(bit(c, 0) == one, bit(c, 1) == zero, bit(c, 2) == zero))
+    wcmd, rcmd = kind(gcmd)["w"], kind(gcmd)["r"]
+    new = kind(cmdbits)
+    h.ghost_next(lastrw, z3.If(is_cmd, bv1(z3.Or(new["w"], new["r"])), lastrw))
+    h.ghost_next(follows, z3.If(is_cmd, lastrw, follows))                      # this command was preceded by a byte transfer (write = address / data byte, or read)
+    sample = z3.And(rcmd, fall, uge(nb, 1), ule(nb, 8))                         # the eight data bits of a read are taken at the end of the SCL high phases 1..8
+    h.ghost_next(grd, z3.If(sample, z3.Concat(z3.Extract(6, 0, grd), sda_in), grd))
+    # ---- helper invariants (from the code)
+    W_ = z3.Or(S["WRITE0"], S["WRITE1"]); RA = z3.Or(S["READACK0"], S["READACK1"]); R_ = z3.Or(S["READ0"], S["READ1"], S["READ2"]); WA = z3.Or(S["WRITEACK0"], S["WRITEACK1"])
+    h.hint("x.strobes", z3.Implies(p_cmd == one, z3.And(strobes == z3.Concat(bit(gcmd, 2), bit(gcmd, 3), bit(gcmd, 1), bit(gcmd, 0)), V(m.data) == gbyte, V(m.ack) == gack, nb == K(0, 4))))
+    h.hint("x.wstates", z3.Implies(z3.Or(W_, RA), wcmd)); h.hint("x.rstates", z3.Implies(z3.Or(R_, WA), rcmd))
+    h.hint("x.ack.rd", z3.Implies(z3.Or(R_, WA), V(m.ack) == gack))
+    h.hint("x.w.nb", z3.Implies(W_, z3.And(ule(B, 8), nb + B == K(8, 4))))
+    h.hint("x.w.scl", z3.Implies(z3.And(S["WRITE0"], B != K(8, 4)), V(m.scl_o) == one))
+    h.hint("x.ra.nb", z3.And(z3.Implies(S["READACK0"], nb == K(8, 4)), z3.Implies(S["READACK1"], nb == K(9, 4))))
+    h.hint("x.w.data", z3.Implies(W_, z3.LShR(V(m.data), zx(nb, 8)) == z3.LShR(gbyte << zx(nb, 8), zx(nb, 8))))          # the b = 8 - nb bits still to send are the top bits of the shift register
+    h.hint("x.w.sda", z3.Implies(S["WRITE1"], V(m.sda_o) == z3.Extract(0, 0, z3.LShR(gbyte, zx(B - 1, 8)))))
+    fol = follows == one        # a read that does not follow a byte transfer (e.g. directly after START: SCL still high, SDA held low) is outside I2C: nothing is claimed for it
+    h.hint("x.kind", lastrw == bv1(z3.Or(wcmd, rcmd)))
+    h.hint("x.wstates.conv", z3.Implies(z3.And(busy, wcmd), z3.Or(W_, RA))); h.hint("x.rstates.conv", z3.Implies(z3.And(busy, rcmd), z3.Or(R_, WA)))
+    h.hint("x.r.nb", z3.Implies(fol, z3.And(z3.Implies(S["READ0"], z3.And(nb == K(0, 4), B == K(7, 4), V(m.scl_o) == zero)), z3.Implies(z3.Or(S["READ1"], S["READ2"]), z3.And(ule(B, 7), nb + B == K(8, 4))))))
+    h.hint("x.wa.nb", z3.Implies(fol, z3.And(z3.Implies(S["WRITEACK0"], nb == K(8, 4)), z3.Implies(S["WRITEACK1"], nb == K(9, 4)))))
+    # READ1 with bits = b: samples s0..s(j-1), j = 7 - b = nb - 1, sit in data[j:1]; READ2 with bits = b: j = 8 - b = nb samples in data[j-1:0]
+    def lowmask(x, n4): return x & ((K(1, 8) << zx(n4, 8)) - 1)
+    h.hint("x.r1.data", z3.Implies(z3.And(S["READ1"], fol), lowmask(z3.LShR(V(m.data), K(1, 8)), nb - 1) == lowmask(grd, nb - 1)))
+    h.hint("x.r2.data", z3.Implies(z3.And(S["READ2"], fol), lowmask(V(m.data), nb) == lowmask(grd, nb)))
+    h.hint("x.wa.data", z3.Implies(z3.And(WA, fol), V(m.data) == grd))
+    h.hint("x.wa.sda", z3.Implies(S["WRITEACK0"], V(m.sda_o) == ~gack))
+    h.hint("x.r.released", z3.Implies(z3.And(R_, follows == one), V(m.sda_o) == one))
+    h.hint("x.byte.end", z3.Implies(z3.And(S["IDLE"], p_cmd == zero, lastrw == one), z3.And(V(m.sda_o) == one, V(m.scl_o) == zero)))     # after a byte transfer: SDA released, SCL low
+    h.hint("x.follows", z3.Implies(z3.And(p_cmd == one, fol), z3.And(V(m.sda_o) == one, V(m.scl_o) == zero)))
+    if ensures:
+        # ---- write: eight data bits MSB first, then the acknowledge slot
+        h.ensure("ens.write.msb-first", z3.Implies(z3.And(wcmd, rise, ule(nb, 7)), sda == z3.Extract(0, 0, z3.LShR(gbyte, zx(K(7, 4) - nb, 8)))))    # k-th rising edge (k = 0 first): bit 7-k of the byte written
+        h.ensure("ens.write.ack-slot-released", z3.Implies(z3.And(wcmd, rise, nb == K(8, 4)), sda == one))                                           # 9th clock: SDA released for the slave
+        h.ensure("ens.write.ack-sampled-scl-high", z3.Implies(z3.And(wcmd, fall, nb == K(9, 4)), h.n(m.ack) == ~sda_in))                           # ack flag = SDA low at the end of the 9th SCL high phase
+        h.ensure("ens.write.nine-clocks", z3.Implies(z3.And(wcmd, busy, n_idle), nb == K(9, 4)))
+        h.ensure("ens.write.ack-stable", z3.Implies(z3.And(z3.Not(wr_xfer), z3.Not(z3.And(S["READACK1"], ce))), h.n(m.ack) == V(m.ack)))           # the ack flag changes only there (or by a register write)
+        # ---- read: eight samples taken while SCL is high, assembled MSB first, then the acknowledge bit from the written ack field
+        h.ensure("ens.read.msb-first", z3.Implies(z3.And(rcmd, fol, busy, n_idle), h.n(m.data) == grd))
+        h.ensure("ens.read.sda-released", z3.Implies(z3.And(rcmd, follows == one, rise, ule(nb, 7)), sda == one))                                  # the master does not drive SDA during the data bits (read after a byte transfer)
+        h.ensure("ens.read.ack-bit", z3.Implies(z3.And(rcmd, fol, rise, nb == K(8, 4)), sda == ~gack))                                                   # 9th clock: ack field 1 -> SDA low (ACK), 0 -> released (NACK)
+        h.ensure("ens.read.nine-clocks", z3.Implies(z3.And(rcmd, fol, busy, n_idle), nb == K(9, 4)))
+        h.ensure("ens.read.data-stable", z3.Implies(z3.And(S["IDLE"], z3.Not(wr_xfer)), h.n(m.data) == V(m.data)))                                  # the byte stays readable until the next register write
+        # ---- command priority of the bit machine (comment in I2CMasterMachine: stop lowest, read, write, start, start with SCL high highest)
+        stt, stp, wri, rea = b(V(m.start)), b(V(m.stop)), b(V(m.write)), b(V(m.read))
+        def code(n): return K(enc[n], V(st).size())
+        nxt = z3.If(z3.And(stt, scl == one), code("START0"), z3.If(stt, code("RESTART0"), z3.If(wri, code("WRITE0"), z3.If(rea, code("READ0"), z3.If(z3.And(stp, scl == zero), code("STOP0"), code("IDLE"))))))
+        h.ensure("ens.priority", z3.Implies(S["IDLE"], h.n(st) == z3.If(ce, nxt, code("IDLE"))))
+        h.ensure("ens.priority.immediate", z3.Implies(strobes != K(0, 4), ce))                                                                   # a command strobe steps the machine at once (does not wait for the divider)
+        # ---- bus side: xfer / config registers
+        acc = z3.And(b(V(bus.cyc)), b(V(bus.stb)), z3.Not(b(V(bus.ack))))
+        h.ensure("ens.bus.ack", b(h.n(bus.ack)) == acc)                                                                                           # every access acknowledged in the next cycle, for one cycle
+        h.ensure("ens.bus.read.xfer", z3.Implies(a0 == zero, h.n(bus.dat_r) == zx(z3.Concat(V(m.idle), K(0, 4), V(m.ack), V(m.data)), 32)))      # data 7:0, ack 8, idle 13
+        h.ensure("ens.bus.read.config", z3.Implies(a0 == one, h.n(bus.dat_r) == zx(LOAD, 32)))
+        h.ensure("ens.bus.write.xfer", z3.Implies(wr_xfer, z3.And(h.n(m.data) == z3.Extract(7, 0, dat), h.n(m.ack) == bit(dat, 8), h.n(m.read) == bit(dat, 9), h.n(m.write) == bit(dat, 10), h.n(m.start) == bit(dat, 11), h.n(m.stop) == bit(dat, 12))))
+        h.ensure("ens.bus.strobe-one-cycle", z3.Implies(z3.Not(wr_xfer), z3.And(h.n(m.read) == zero, h.n(m.write) == zero, h.n(m.start) == zero, h.n(m.stop) == zero)))
+        h.ensure("ens.bus.write.config", h.n(m.cg.load) == z3.If(wr_cfg, z3.Extract(19, 0, dat), LOAD))
+        h.cover("cover.write-second-bit", z3.And(wcmd, rise, nb == K(1, 4), sda == one, gbyte == K(0x40, 8)), depth=16)
+        h.cover("cover.read-second-sample", z3.And(rcmd, sample, nb == K(2, 4), sda_in == one), depth=18)
+        # a read that follows a complete write: pinned to one bus schedule (divider := 1, WRITE 0xA5, READ as soon as the core is idle again) so that the deep search is propagation only
+        tick = h.ghost("script_t", 3); ok = h.ghost("script_ok", 1, init=1); issued = h.ghost("script_read_issued", 1)
+        noacc = z3.Not(z3.And(b(V(bus.cyc)), b(V(bus.stb))))
+        full_ = z3.And(b(V(bus.cyc)), b(V(bus.stb)), b(V(bus.we)))
+        step0 = z3.And(full_, a0 == one, dat == K(1, 32)); step2 = z3.And(full_, a0 == zero, dat == K((1 << 10) | 0xA5, 32)); stepr = z3.And(full_, a0 == zero, dat == K((1 << 9) | (1 << 8), 32))
+        want_read = z3.And(tick == K(7, 3), issued == zero, b(V(m.idle)))
+        follow = z3.If(tick == K(0, 3), step0, z3.If(tick == K(2, 3), step2, z3.If(want_read, stepr, noacc)))
+        h.ghost_next(tick, z3.If(tick == K(7, 3), tick, tick + 1)); h.ghost_next(ok, z3.If(follow, ok, zero)); h.ghost_next(issued, z3.If(z3.And(want_read, stepr), one, issued))
+        h.cover("cover.read-after-write", z3.And(ok == one, rcmd, fol, sample, nb == K(1, 4), sda_in == one, gack == one), depth=50)
+        h.bmc_time = 200
+    if timing:
+        ldc = h.const("load", 20)
+        h.assume(z3.Implies(wr_cfg, z3.Extract(19, 0, dat) == ldc), "timing clauses: every write to the divider register carries the same value (the divider is a constant once programmed)")
+        EW = 22
+        e = h.ghost("since_edge", EW, init=(1 << EW) - 1); le = h.ghost("last_step_edge", 1)
+        edge = scl != scl_n
+        h.ghost_next(e, z3.If(edge, K(0, EW), z3.If(e == K((1 << EW) - 1, EW), e, e + 1)))                                                   # cycles since the last SCL edge (saturating; 'never' after reset)
+        h.ghost_next(le, z3.If(S["IDLE"], zero, z3.If(ce, bv1(edge), le)))
+        cfg = h.ghosts["configured"][0]
+        h.hint("t.load", z3.If(cfg == one, LOAD == ldc, LOAD == K(0, 20)))
+        h.hint("t.cnt<=load", z3.ULE(CNT, LOAD))
+        h.hint("t.never", z3.Implies(cfg == zero, e == K((1 << EW) - 1, EW)))
+        h.hint("t.min", z3.UGE(zx(e, EW + 1) + zx(CNT, EW + 1), zx(LOAD, EW + 1)))           # also while idle: an ignored command (STOP with SCL high) advances the divider by one cycle, and takes at least one cycle
+        h.hint("t.exact", z3.Implies(z3.And(busy, le == one), zx(e, EW + 1) + zx(CNT, EW + 1) == zx(LOAD, EW + 1)))
+        h.hint("t.ss.nb", z3.Implies(z3.Or(S["STOP0"], S["STOP1"], S["RESTART0"], S["RESTART1"]), nb == K(0, 4)))
+        h.hint("t.le", z3.Implies(z3.And(z3.Or(W_, RA, z3.And(z3.Or(R_, WA), fol)), uge(nb, 1)), le == one))
+        h.ensure("ens.scl.min-phase", z3.Implies(edge, z3.UGE(e, zx(LOAD, EW))))                  # two SCL edges are never closer than divider + 1 system clock cycles
+        h.ensure("ens.scl.phase-exact", z3.Implies(z3.And(edge, uge(nb, 1), z3.Or(z3.Not(rcmd), fol)), e == zx(LOAD, EW)))   # inside a byte transfer every SCL high / low phase lasts exactly divider + 1 cycles
+        h.cover("cover.second-edge", z3.And(edge, uge(nb, 1), wcmd, ldc == K(2, 20)), depth=24)
+    return h
+
+def c_i2c_data(): return _i2c_ext(False, True)
+def c_i2c_timing(): return _i2c_ext(True, False)
+
+def c_i2c_clockgen(width=20, with_ce=False):
+    """I2CClockGen: clk2x ticks are exactly load + 1 (enabled) cycles apart, i.e. one SCL phase = divider + 1 system clock cycles, SCL period = 2 * (divider + 1);
+    the first tick comes in the first enabled cycle after reset"""
+    from litex.soc.cores.i2c import I2CClockGen
+    class Top(LiteXModule):
+        def __init__(self):
+            self.cg = CEInserter()(I2CClockGen(width)) if with_ce else I2CClockGen(width)
+    top = mk(Top); cg = top.cg
+    h = HwCheck(f"I2CClockGen({width}{',ce' if with_ce else ''})", top, [cg.load] + ([cg.ce] if with_ce else []))
+    V = h.v; one, zero = K(1, 1), K(0, 1)
+    ld = h.const("load", width)
+    h.assume(V(cg.load) == ld, "the divider is configuration: constant")
+    en = b(V(cg.ce)) if with_ce else z3.BoolVal(True)
+    cnts = [s_ for s_ in h.ts.state if s_.nbits == width]
+    tick = z3.And(b(V(cg.clk2x)), en)
+    TW = width + 1
+    t = h.ghost("since_tick", TW); seen = h.ghost("seen_tick", 1)
+    h.ghost_next(t, z3.If(tick, K(0, TW), z3.If(en, t + 1, t))); h.ghost_next(seen, z3.If(tick, one, seen))        # enabled cycles since the last tick
+    if len(cnts) == 1:
+        c = V(cnts[0])
+        h.hint("first", z3.Implies(seen == zero, z3.And(c == K(0, width), t == K(0, TW))))
+        h.hint("phase", z3.Implies(seen == one, t + zx(c, TW) == zx(ld, TW)))
+    else: h.use_auto = True
+    h.ensure("ens.half-period", z3.Implies(z3.And(tick, seen == one), t == zx(ld, TW)))                               # ticks exactly load + 1 enabled cycles apart
+    h.ensure("ens.no-early-tick", z3.Implies(z3.And(seen == one, z3.ULT(t, zx(ld, TW))), z3.Not(b(V(cg.clk2x)))))
+    h.ensure("ens.first-tick", z3.Implies(seen == zero, b(V(cg.clk2x))))                                              # after reset the generator ticks in its first enabled cycle
+    h.cover("cover.second-tick", z3.And(tick, seen == one, ld == K(3, width)), depth=10)
+    h.functions = ["litex.soc.cores.i2c.I2CClockGen.__init__"]
+    return h
+
+def c_i2c_event():
+    """the idle event of I2CMaster behind a real CSRBank (event manager clauses of C15 with the documented event: the core becomes idle)"""
+    from migen.fhdl.specials import Tristate
+    from litex.soc.cores.i2c import I2CMaster
+    from contracts.C15_periph_events import event_clauses, _bus_inputs
+    class Pads:
+        def __init__(self): self.scl = Signal(); self.sda = Signal()
+    class Top(LiteXModule):
+        def __init__(self):
+            self.c = I2CMaster(Pads())
+            self.bus = csr_bus.Interface(data_width=32, address_width=14)
+            self.bank = csr_bus.CSRBank(self.c.get_csrs(), address=0, bus=self.bus)
+    top = mk(Top); d = top.c; m = d.i2c; ev = d.ev
+    f = top.get_fragment()
+    f.specials = {s_ for s_ in f.specials if not isinstance(s_, Tristate)}      # technology primitives without a simulation model: the pad inputs become environment inputs
+    wb = d.bus
+    h = HwCheck("I2CMaster.ev.idle", f, [wb.adr, wb.dat_w, wb.we, wb.cyc, wb.stb, wb.sel, d.scl_t.i, d.sda_t.i] + _bus_inputs(top))
+    V = h.v
+    st, enc = m.fsm.state, m.fsm.encoding
+    strobes = z3.Concat(V(m.start), V(m.stop), V(m.write), V(m.read))
+    idle_now = z3.And(eqc(V(st), enc["IDLE"]), strobes == K(0, 4))               # no command pending or executing
+    p_idle = h.prev("idle", bv1(idle_now))                                          # history before reset: "not idle" (as the edge detector's reset value)
+    becomes_idle = z3.And(idle_now, z3.Not(b(p_idle)))
+    event_clauses(h, top, ev, [ev.idle], [becomes_idle], ["idle"])
+    h.ensure("ens.idle.level", b(V(ev.idle.trigger)) == idle_now)                  # status bit = raw level "idle"
+    h.ensure("ens.idle.flag", b(V(m.idle)) == idle_now)                            # the same level is bit 13 of the xfer register (ens.bus.read.xfer in I2CMaster.data)
+    h.cover("cover.irq", b(V(ev.irq)), depth=6)
+    done_cmd = h.ghost("cmd_seen", 1); h.ghost_next(done_cmd, z3.If(strobes != K(0, 4), K(1, 1), done_cmd))
+    h.cover("cover.idle-after-command", z3.And(becomes_idle, b(done_cmd)), depth=10)
+    h.bmc_depth = 12
+    h.functions = ["litex.soc.cores.i2c.I2CMaster.__init__ (ev.idle)", "litex.soc.interconnect.csr_eventmanager.EventManager.do_finalize",
+                   "litex.soc.interconnect.csr_eventmanager.EventSourceProcess.__init__"]
+    return h
+
+def c_i2c_machine():
+    """I2CMasterMachine alone, command strobes unconstrained (any combination, any time): the documented command priority in IDLE,
+    immediate step on a strobe, divider running exactly while not idle"""
+    from litex.soc.cores.i2c import I2CMasterMachine
+    m = mk(I2CMasterMachine, 20)
+    h = HwCheck("I2CMasterMachine", m, [m.start, m.stop, m.write, m.read, m.sda_i, m.cg.load])
+    V = h.v; one, zero = K(1, 1), K(0, 1)
+    st, enc = m.fsm.state, m.fsm.encoding
+    S = {n: eqc(V(st), c) for n, c in enc.items()}
+    bits = L(m, "bits")
+    stt, stp, wri, rea = b(V(m.start)), b(V(m.stop)), b(V(m.write)), b(V(m.read))
+    run = z3.Or(stt, stp, wri, rea); ce = b(V(m.fsm.ce)); scl = V(m.scl_o)
+    def code(n): return K(enc[n], V(st).size())
+    nxt = z3.If(z3.And(stt, scl == one), code("START0"), z3.If(stt, code("RESTART0"), z3.If(wri, code("WRITE0"), z3.If(rea, code("READ0"), z3.If(z3.And(stp, scl == zero), code("STOP0"), code("IDLE"))))))
+    h.ensure("ens.priority", z3.Implies(S["IDLE"], h.n(st) == z3.If(ce, nxt, code("IDLE"))))                 # stop lowest, read, write, start (restart), start with SCL high highest
+    h.ensure("ens.step", ce == z3.Or(run, b(V(m.cg.clk2x))))                                                   # a strobe steps the machine at once, otherwise one step per clk2x tick
+    h.ensure("ens.idle-flag", b(V(m.idle)) == z3.And(S["IDLE"], z3.Not(run)))
+    h.ensure("ens.divider-runs-while-busy", b(V(m.cg.ce)) == z3.Not(b(V(m.idle))))
+    h.ensure("ens.hold", z3.Implies(z3.Not(ce), z3.And(h.n(st) == V(st), h.n(m.scl_o) == V(m.scl_o), h.n(m.sda_o) == V(m.sda_o), h.n(m.data) == V(m.data))))   # nothing moves between steps
+    if bits is not None and bits in h.ts.var:
+        h.ensure("ens.bitcount", z3.Implies(z3.And(S["IDLE"], ce), h.n(bits) == z3.If(wri, K(8, 4), z3.If(rea, K(7, 4), V(bits)))))   # write: 8 bits then the ack slot; read: first bit + 7 shifts
+    h.ensure("ens.levels-idle", z3.Implies(z3.And(S["IDLE"]), z3.And(h.n(m.scl_o) == V(m.scl_o), h.n(m.sda_o) == V(m.sda_o))))          # IDLE never moves the lines
+    h.hint("st", ult(V(st), len(enc)))
+    h.cover("cover.write-over-read", z3.And(S["IDLE"], wri, rea, z3.Not(stt)), depth=4)
+    h.cover("cover.write-step", S["WRITE1"], depth=6)
+    h.functions = ["litex.soc.cores.i2c.I2CMasterMachine.__init__"]
+    return h
+
 def cases(tier):
     cs = [Case("SPIMaster.rx(8,raw)", c_spi_rx, 8, "raw"), Case("SPIMaster.rx(8,aligned)", c_spi_rx, 8, "aligned"), Case("SPIMaster.rx(8,raw,nocs)", c_spi_rx, 8, "raw", "nocs"),
-          Case("SPIMaster.rx(8,aligned,cs4)", c_spi_rx, 8, "aligned", "cs4"), Case("SPIMaster.rx(5,raw)", c_spi_rx, 5, "raw"),
+          Case("SPIMaster.rx(8,aligned,cs4)", c_spi_rx, 8, "aligned", "cs4"), Case("SPIMaster.rx(5,raw)", c_spi_rx, 5, "raw"), Case("SPIMaster.rx(2,aligned)", c_spi_rx, 2, "aligned"),
           Case("SPIMaster.csr(8,raw)", c_spi_csr, 8, "raw"), Case("SPIMaster.csr(8,aligned)", c_spi_csr, 8, "aligned"),
-          Case("SPIMaster.corner(8,div<2)", c_spi_corner, 8, "div<2"), Case("SPIMaster.corner(8,len=0)", c_spi_corner, 8, "len=0"), Case("SPIMaster.corner(8,len>dw)", c_spi_corner, 8, "len>dw")]
+          Case("SPIMaster.corner(8,div<2)", c_spi_corner, 8, "div<2"), Case("SPIMaster.corner(8,len=0)", c_spi_corner, 8, "len=0"), Case("SPIMaster.corner(8,len>dw)", c_spi_corner, 8, "len>dw"),
+          Case("I2CMaster.data", c_i2c_data, timeout=1500), Case("I2CMaster.timing", c_i2c_timing, timeout=900), Case("I2CMasterMachine", c_i2c_machine), Case("I2CMaster.ev.idle", c_i2c_event),
+          Case("I2CClockGen(20)", c_i2c_clockgen, 20, False), Case("I2CClockGen(20,ce)", c_i2c_clockgen, 20, True), Case("I2CClockGen(4,ce)", c_i2c_clockgen, 4, True)]
     if tier == "thorough":
-        cs += [Case("SPIMaster.rx(12,raw)", c_spi_rx, 12, "raw"), Case("SPIMaster.rx(12,aligned)", c_spi_rx, 12, "aligned"), Case("SPIMaster.rx(32,raw)", c_spi_rx, 32, "raw"), Case("SPIMaster.rx(32,aligned,nocs)", c_spi_rx, 32, "aligned", "nocs"),
-               Case("SPIMaster.csr(32,aligned)", c_spi_csr, 32, "aligned"), Case("SPIMaster.corner(12,len>dw)", c_spi_corner, 12, "len>dw"), Case("SPIMaster.corner(32,div<2)", c_spi_corner, 32, "div<2")]
+        cs += [Case("SPIMaster.rx(12,raw)", c_spi_rx, 12, "raw"), Case("SPIMaster.rx(12,aligned)", c_spi_rx, 12, "aligned"), Case("SPIMaster.rx(12,raw,nocs)", c_spi_rx, 12, "raw", "nocs"),
+               Case("SPIMaster.rx(32,raw)", c_spi_rx, 32, "raw"), Case("SPIMaster.rx(32,aligned,nocs)", c_spi_rx, 32, "aligned", "nocs"),
+               Case("SPIMaster.csr(12,raw)", c_spi_csr, 12, "raw"), Case("SPIMaster.csr(32,aligned)", c_spi_csr, 32, "aligned"),
+               Case("SPIMaster.corner(12,len>dw)", c_spi_corner, 12, "len>dw"), Case("SPIMaster.corner(12,len=0)", c_spi_corner, 12, "len=0"), Case("SPIMaster.corner(32,div<2)", c_spi_corner, 32, "div<2")]
     return cs
 
-ASSUMPTIONS = []
+ASSUMPTIONS = [
+    "SPIMaster.rx: clock divider (>= 2), transfer length (1..data_width) and the loopback bit are rigid symbolic configuration constants; start, mosi, cs, cs_mode and pads.miso are unconstrained in every cycle (start requests at any divider phase, also while busy)",
+    "SPIMaster.csr: the CSR bus master is unconstrained except for the software discipline: divider register written with values >= 2 and not during a transfer; a control write that sets start carries a length of 1..data_width; "
+    "during a transfer (start pulse to done) the control register is only rewritten with the same length and the loopback register is not changed.  The divider may be reprogrammed between transfers: the free-running "
+    "divider counter may then have to wrap (up to 65536 cycles in START), which the ranking function (modulo 2^16 in START) covers; the bounded start-up clause ens.sck.first-edge is therefore only stated for the constant divider of SPIMaster.rx",
+    "SPIMaster.corner: configurations outside the two ranges above (divider 0/1, length 0, length > data_width) with the bounded-duration clause as finding candidates; the clause itself follows for the legal ranges from "
+    "ens.sck.first-edge + ens.sck.period + ens.pulses + ens.sck.last-to-done of SPIMaster.rx.  Simulator (litex.gen.sim) integer semantics: for divider 0 the generated Verilog compares in 16 bits (0 - 1 = 0xFFFF), so real hardware "
+    "does not hang there but produces no SCK pulse (clk_rise and clk_fall coincide every 65536 cycles and the rise branch wins); divider 1 and the two length cases hang in both",
+    "I2CMaster.data / .timing: everything assumed by I2CMaster(disciplined) in C19_serial_ext.py (Tristates removed, SCL pad = what the master drives, xfer register written only while idle, divider >= 1 programmed before the first command and only while idle). "
+    "Which command executes is taken from the documented priority (start > write > read > stop). The read clauses are stated for a read that follows a byte transfer (write or read), the only place where I2C allows one: "
+    "a read issued directly after START/STOP finds SCL high and SDA possibly held low, and nothing is claimed for it. I2CMaster.timing additionally assumes that every divider write carries the same value",
+    "I2CMasterMachine / I2CClockGen / I2CMaster.ev.idle: no assumption on the strobes / bus masters (I2CClockGen: constant load)",
+]
